@@ -48,6 +48,9 @@ Typedefs == [myint  |-> P("int"),
              pint   |-> Ptr(P("int")),
              arr3_t |-> Arr(P("int"), 3),
              fn_t   |-> Ptr(Fn(P("int"), <<P("int")>>, FALSE)),
+             vec_t  |-> Arr(P("int"), 5),                              \* typedef int vec_t[5];
+             mat_t  |-> Arr(Arr(P("int"), 5), 2),                      \* typedef vec_t mat_t[2];
+             func_t |-> Fn(P("int"), <<P("int")>>, FALSE),             \* typedef int func_t(int);  a FUNCTION type
              s2_t   |-> Agg("struct", "s2"),
              e1_t   |-> Agg("enum", "e1")]
 IntConsts == [N |-> 3, M |-> 16, E1 |-> 1, E2 |-> 2]            \* #define N 3, #define M 0x10, enum e1 {E0,E1,E2}
@@ -70,6 +73,7 @@ Complete(t) == CASE t.k = "prim" -> TRUE
 
 RECURSIVE Valid(_)
 Valid(t) == CASE t.k \in {"prim", "void"} -> TRUE
+              [] t.k = "bad" -> FALSE                  \* what an implementation model could not build
               [] t.k = "ptr" -> Valid(t.t)
               [] t.k = "arr" -> Valid(t.t) /\ Complete(t.t)
               [] t.k = "fn"  -> /\ Valid(t.res) /\ t.res.k \notin {"arr", "fn"}
@@ -88,7 +92,9 @@ SizeOf(t) == CASE t.k = "prim" -> PrimSize[t.n]
                [] t.k = "arr"  -> t.len * SizeOf(t.t)
                [] OTHER        -> Aggs[t.tag].size
 
-(* function parameter adjustment (C11 6.7.6.3p7,8) *)
+(* function parameter adjustment (C11 6.7.6.3p7,8): a parameter declared with type t - also
+   through a typedef name of an array or function type - denotes Param(t) = Adjust(t):
+   array of T -> pointer to T, function -> pointer to function *)
 Adjust(t) == CASE t.k = "arr" -> Ptr(t.t)
                [] t.k = "fn"  -> Ptr(t)
                [] OTHER       -> t
